@@ -205,6 +205,30 @@ def run_closing_case(impl, case, out):
         w.teardown()
 
 
+def run_small_limit_case(impl, case, out):
+    """Limits smaller than the 6-character probe: whatever becomes of the handshake, no frame longer than the limit may
+    reach the application, at any later stage of that socket."""
+    L = case['L']
+    w = peer.make_world(impl, server_kwargs=dict(max_http_buffer_size=L, ping_interval=2, ping_timeout=1))
+    try:
+        sid = peer.sid_of(peer.open_polling(w))
+        s = peer.ws_upgrade(w, sid)
+        for f in ['2probe', '5'] + case['frames']:
+            if s.done:
+                break
+            w.ws_send(s, f)
+            w.run()
+        w.run_until(w.now + 0.25)
+        for e in w.events:
+            if e[0] == 'message':
+                size = len(e[2]) if isinstance(e[2], (str, bytes)) else 0
+                if size + 1 > L:
+                    V(out, impl, 'oversize_data_delivered', 'small_limit_upgrade',
+                      'handler got %r (frame of %d characters) with max_http_buffer_size=%d' % (e[2], size + 1, L), case)
+    finally:
+        w.teardown()
+
+
 def frame_of(kind, n):
     if kind == 'text':
         return '4' + 'a' * (n - 1) if n >= 1 else ''
@@ -284,6 +308,8 @@ def _work(chunk):
                 run_post_case(impl, case, out)
             elif kind == 'closing':
                 run_closing_case(impl, case, out)
+            elif kind == 'small':
+                run_small_limit_case(impl, case, out)
             elif kind == 'count':
                 if isinstance(case, dict):
                     run_count_case(impl, case['packets'], out, case.get('form'))
@@ -318,6 +344,9 @@ def jobs_for(ctx):
         for k in (40, 100):
             for form in (None, 'quote'):
                 jobs.append(('count', impl, {'packets': k, 'form': form}))
+        for L in (1, 2, 3, 4, 5):
+            for n in range(L, 8):
+                jobs.append(('small', impl, {'L': L, 'frames': ['4' + 'a' * (n - 1), '4' + 'b' * (n - 1)]}))
         for L in (10, 100):
             for declared in (L - 1, L, L + 1, 10 * L):
                 for how in ('post_close', 'api_disconnect'):
@@ -367,6 +396,8 @@ def replay(ctx, payload):
     c = r['case']
     if isinstance(c, dict) and 'how' in c:
         run_closing_case(r['impl'], c, out)
+    elif isinstance(c, dict) and 'frames' in c:
+        run_small_limit_case(r['impl'], c, out)
     elif isinstance(c, dict) and 'stage' in c:
         run_frame_case(r['impl'], c, out)
     elif isinstance(c, dict) and 'packets' in c:
